@@ -63,7 +63,7 @@ def _sign_checks(it, ctx):
     for t in it.trace:  # ECDSA signing happens inside a callee under contract
         if t[0] == "call" and t[1] == "SuitKMS._create_cose_es_signature":
             k = t[2]["private_key"]
-            signs.append(("crypto-sign", k.f["ktype"], k.f["key_size"].conc, t[2]["input_data"]))
+            signs.append(("crypto-sign", k.f["ktype"], k.f["key_size"].conc, t[2]["input_data"], k.f.get("data")))
     if ctx.outcome != "return":
         return [("no_signature_on_rejection", z3.BoolVal(len(signs) == 0))]
     goals = [("exactly_one_signature", z3.BoolVal(len(signs) == 1))]
@@ -74,6 +74,12 @@ def _sign_checks(it, ctx):
               "eddsa": kind in ("ed25519", "ed448"), "hash-eddsa": kind in ("ed25519ph",)}[alg]
         goals.append(("key_type_matches_algorithm", z3.BoolVal(ok)))
         goals.append(("signs_the_given_data", msg.e == ctx.arg("data").e))
+        # ... with the private key stored under the GIVEN name (<keys directory>/<key_name>.pem or .der), whatever characters the name contains
+        kd = signs[0][4] if len(signs[0]) > 4 else None
+        if kd is not None and hasattr(kd, "e"):
+            ctx.env.set("KEY_DATA_USED", kd)
+            goals.append(("signs_with_the_key_stored_under_the_given_name", ctx.formula(
+                "KEY_DATA_USED == old(FILE(pathstr(self.keys_directory) + '/' + key_name + '.pem')) or KEY_DATA_USED == old(FILE(pathstr(self.keys_directory) + '/' + key_name + '.der'))")))
     return goals
 
 
@@ -228,6 +234,8 @@ def bounded(ctx):
     keys = S.make_keys(d)
     key_ids = [0, 1, 23, 24, 255, 256, 65535, 65536, 0x40000000, 2 ** 32 - 1]
     shapes = [dict(payloads=[], deps=[], extra=False), dict(payloads=[("#p", b"\x01\x02")], deps=[], extra=True),
+              dict(payloads=[("#zz-longer-name", b"\x09"), ("#a", b"\x08\x07")], deps=[], extra=True),  # members NOT in canonical CBOR key order: the order must survive
+
               dict(payloads=[("#a", b""), ("#b", bytes(300))], deps=[("#dep", S.make_envelope("child", seed=3))], extra=True)]
     for ai, alg in enumerate(S.ALGS):
         for ki, kid in enumerate(key_ids):
